@@ -107,6 +107,7 @@ fn dispatch(cfg: &Cfg, rep: &mut Report) {
     match cfg.prop.as_str() {
         "C08" => props::c08::run(cfg, rep),
         "C09" => props::c09::run(cfg, rep),
+        "C20" => props::c20::run(cfg, rep),
         other => {
             eprintln!("unknown property {other}");
             std::process::exit(2);
@@ -115,10 +116,10 @@ fn dispatch(cfg: &Cfg, rep: &mut Report) {
 }
 
 fn dispatch_replay(cfg: &Cfg, kind: &str, payload: &str, rep: &mut Report) {
-    let _ = kind;
     match cfg.prop.as_str() {
         "C08" => props::c08::replay(payload, rep),
         "C09" => props::c09::replay(payload, rep),
+        "C20" => props::c20::replay(kind, payload, rep),
         other => {
             eprintln!("unknown property {other}");
             std::process::exit(2);
